@@ -222,7 +222,6 @@ def main(tier, vseed, replay=None):
         S.counters['status_' + r['status']] += 1
         S.counters['customers_compared_with_fluid_model'] += r['compared']
         S.counters['emptying_instants_compared_with_fifo'] += r['fifo_compared']
-        S.counters['tie_ambiguous_runs'] += 1 if r.get('tie_ambiguous') else 0
         worst = max(worst, r['worst'])
         if r['compared'] > 0:
             S.sigs.add(r['sig'])
@@ -237,7 +236,7 @@ def main(tier, vseed, replay=None):
         level='exploration', deciding='customers_compared_with_fluid_model', replay=bool(replay), failures=failures,
         extra_cov={'traces_validated_against_impl': int(S.counters['customers_compared_with_fluid_model']), 'worst_abs_error': worst},
         assumptions=["no blocking into / out of PS nodes (quantifier)", "float accumulation differences below 1e-6 are not violations",
-                     "lattice runs whose records leave the order of simultaneous events undetermined are counted as tie_ambiguous, not judged"])
+                     "the place in line of simultaneous arrivals at a capacity-limited PS node is taken from the engine's own recorded service starts (a free tie-break)"])
 
 
 if __name__ == '__main__':
